@@ -3,7 +3,7 @@ from . import ctrl, fpk, loop, steps, xform
 
 OWNED = ["C05.", "C14.next_point_is_clipped_step"]
 REQUIRED = [
-    "C05.evaluation_point_in_box", "C05.trial_iterate_in_box", "C05.start_iterate_in_internal_box", "C05.result_in_box", "C05.start_in_box",
+    "C05.evaluation_point_in_box", "C05.trial_iterate_in_box", "C05.start_iterate_in_internal_box", "C05.user_callbacks_see_points_inside_the_user_bounds", "C05.result_in_box", "C05.start_in_box",
     "C05.fp64.clipped_point_inside_bounds_exactly", "C05.fp64.clipped_point_not_nan", "C14.next_point_is_clipped_step",
 ]
 META = dict(
